@@ -112,6 +112,9 @@ pub struct HState {
     pub local_events: u64,
     pub remote_events: u64,
     pub report: VecDeque<ProtocolSupport>,
+    /// reports the handler starts emitting as soon as it receives a LocalProtocolsChange event
+    /// (i.e. still inside the same `Connection::poll`)
+    pub report_on_local: VecDeque<ProtocolSupport>,
     pub want_outbound: u32,
     pub next_request: u32,
     /// negotiated streams in arrival order (None = dropped by the harness)
@@ -182,6 +185,8 @@ impl ConnectionHandler for ProbeHandler {
             }
             ConnectionEvent::LocalProtocolsChange(c) => {
                 s.local_events += 1;
+                let q: Vec<ProtocolSupport> = s.report_on_local.drain(..).collect();
+                s.report.extend(q);
                 match c {
                     ProtocolsChange::Added(a) => {
                         for p in a {
@@ -248,6 +253,7 @@ impl Driver {
             local_events: 0,
             remote_events: 0,
             report: VecDeque::new(),
+            report_on_local: VecDeque::new(),
             want_outbound: 0,
             next_request: 0,
             streams: Vec::new(),
